@@ -132,9 +132,8 @@ PROPS = {
     "C04": {
         "engines": [("c04", "main")],
         "lean": ["PgsVerif.Props.C04"],
-        "category": "exploration",
         "rule": "curated worlds + seeded random protodesc-valid worlds (see C01: 1-5 files, import DAGs with public re-exports and unused imports, shared/nested/empty packages, both proto2 spellings and proto3, nesting depth <= 4, map entries interleaved among nested types, real/synthetic oneofs, all scalar kinds x labels x map keys, enum/message references to same file / direct imports / publicly re-exported files, recursion, extensions at file and message scope, services, SourceCodeInfo); observed: per file: Imports (ordered), TransitiveImports, Dependents, UnusedImports (as sets + duplicate flag); per message/field/oneof/service/method/extension: Imports (set + duplicate flag); non-trivial = world with at least one message (C04: at least 2 files)",
-        "level_text": "THEOREMS PENDING (level exploration until proved): executable Lean model of ast.go's hydration and of the accessors compared with the real AST on every generated world; Phi_C04: imports = declared dependencies in order; transitive = closure of the import relation; dependents = reverse closure; entity imports = other files defining the directly referenced types (map: value type); unused = non-public direct imports defining no type referenced by any field, method or extension (type or extendee) of the file - evaluated on every observed AST.",
+        "level_text": "Lean theorems (Props/C04), for every Valid request: C04_imports (a file's Imports are its declared dependencies in order, each THE file of that name: C04_import_is_named_file), C04_acyclic (imports point to earlier files, so the fuelled recursion is never cut short), C04_transitive (TransitiveImports = exactly the files reachable through one or more imports; generic lemma clos_sound/clos_complete: fuelled closure = reachability under a decreasing measure), C04_dependents (exactly the files that reach it), C04_listed_once. PARTIAL: the entity-level clauses (imports of field/oneof/message/method/service) and UnusedImports are computed by the model from the graph that C03 proves declarative, and are stated declaratively in Phi_C04, but their model-level theorems are not written: they are decided by Phi on every real AST + model==implementation on every case.",
         "level_note": "Trusted: protodesc.NewFiles defines 'valid request'; descriptor pointer identity as entity identity; protoreflect (protobuf-go v1.23.0) as the reference for 'protobuf's own semantics'.",
     },
     "C08": {
